@@ -417,8 +417,8 @@ def c15_run(prop, tier, seed):
                 dyn.append({"o": o, "r1": ra, "r2": rb, "first": dl_cases[(o, ra)], "second": dl_cases[(o, rb)]})
     for k, d in enumerate(dyn):
         steps = [{"do": "participant"}, {"do": "participant"},
-                 {"do": "create_writer", "part": 0, "qos": scenarios.q(deadline_ms=dl_ms[d["o"]])},
-                 {"do": "create_reader", "part": 1, "qos": scenarios.q(deadline_ms=dl_ms[d["r1"]])},
+                 {"do": "create_writer", "part": 0, "qos": scenarios.q(deadline_ms=dl_ms[d["o"]]), "listener": ["OfferedIncompatibleQos"]},
+                 {"do": "create_reader", "part": 1, "qos": scenarios.q(deadline_ms=dl_ms[d["r1"]]), "listener": ["RequestedIncompatibleQos"]},
                  {"do": "sleep", "ms": 600}, {"do": "pub_status", "w": 0}, {"do": "sub_status", "r": 0},
                  {"do": "set_reader_qos", "r": 0, "qos": scenarios.q(deadline_ms=dl_ms[d["r2"]])},
                  {"do": "sleep", "ms": 600}, {"do": "pub_status", "w": 0}, {"do": "sub_status", "r": 0}]
@@ -439,8 +439,21 @@ def c15_run(prop, tier, seed):
                 sig = f"Compat:dyn:{phase}:{'missed-match' if want else 'spurious-match'}:{side}"
                 report(sig, f"{sig}: deadline offered {d['o']} requested {d['r1']}->{d['r2']}: expected matched={want}, writer sees {a.get('n')}, reader sees {b.get('n')}",
                        {"property": prop, "kind": "dyn", "signature": sig, "case": d, "scenario": sc})
+        # the incompatible-QoS statuses of both sides (seen through listeners): one remote endpoint, reported once, when it is
+        # first found incompatible, with total_count 1 and the deadline policy
+        want_cb = 0 if (d["first"] and d["second"]) else 1
+        for kind, side in (("OfferedIncompatibleQos", "writer"), ("RequestedIncompatibleQos", "reader")):
+            cbs = [e for e in (run or []) if e["ev"] == "Listener" and e.get("kind") == kind]
+            ok = len(cbs) == want_cb and all(c.get("tot") == 1 and c.get("chg") == 1 and c.get("lastn") == "deadline"
+                                             and c.get("policies") == {"deadline": 1} for c in cbs)
+            if not ok:
+                sig = f"Compat:dyn:incompatible-qos-status:{side}:{'not-reported' if len(cbs) < want_cb else 'wrongly-reported'}"
+                report(sig, f"{sig}: deadline offered {d['o']} requested {d['r1']}->{d['r2']}: expected {want_cb} report(s) with total_count 1 "
+                            f"naming the deadline policy, got {cbs}",
+                       {"property": prop, "kind": "dyn", "signature": sig, "case": d, "scenario": sc})
     checked = 0
     skipped = 0
+    status_checked = 0
     for run in runs:
         for e in (run or []):
             if e["ev"] == "SimError":
@@ -460,6 +473,23 @@ def c15_run(prop, tier, seed):
                 sig = f"Compat:e2e:{'partition' if c['why'] == 'partition' else 'qos'}:{'missed-match' if want else 'spurious-match'}:{side}"
                 report(sig, f"{sig}: expected matched={want}, writer sees {e.get('w_matched')}, reader sees {e.get('r_matched')} {e.get('err', '')}",
                        {"property": prop, "kind": "e2e", "signature": sig, "case": c, "observed": e})
+            # "an incompatible pair is reported as offered/requested incompatible QoS naming the offending policies":
+            # one remote endpoint => total_count 1, every offending policy of Compat.tla's Incompatible(q) counted once,
+            # last_policy_id one of them; a compatible pair (also one kept apart by its partitions) reports nothing
+            inc = [] if c["why"] == "partition" else sorted(c["why"])
+            for level, side in (("compat-w", "writer"), ("compat-r", "reader")):
+                cbs = [x for x in run if x["ev"] == "Listener" and x.get("level") == level and x.get("idx") == e["id"]]
+                status_checked += 1
+                if not inc:
+                    ok = cbs == []
+                else:
+                    ok = (len(cbs) == 1 and cbs[0].get("tot") == 1 and cbs[0].get("chg") == 1
+                          and sorted((cbs[0].get("policies") or {}).keys()) == inc
+                          and all(v == 1 for v in cbs[0]["policies"].values()) and cbs[0].get("lastn") in inc)
+                if not ok:
+                    sig = f"Compat:e2e:incompatible-qos-status:{side}:{'wrongly-reported' if not inc else ('not-reported' if not cbs else 'wrong-policies-or-count')}"
+                    report(sig, f"{sig}: expected {'no report' if not inc else 'one report with total_count 1 naming ' + str(inc)}, got {cbs}",
+                           {"property": prop, "kind": "e2e", "signature": sig, "case": c, "observed": cbs})
     if checked + skipped < len(e2e) * 0.9 or checked < len(e2e) * 0.5:
         raise ToolError(f"only {checked} of {len(e2e)} end-to-end cases produced a result")
     coverage = {
@@ -473,6 +503,7 @@ def c15_run(prop, tier, seed):
                 "non-trivial = records the specification declares incompatible",
         "function_cases": len(qcases), "function_disagreements": rep["disagreements"],
         "dynamic_requalification_cases": len(dyn),
+        "incompatible_qos_statuses_judged": status_checked,
         "end_to_end_cases": checked, "end_to_end_cases_skipped_inconsistent_qos": skipped, "partition_cases_enumerated": len(pcases),
         "exhaustive": True,
         "checker_cmd": r1["stats"]["cmd"],
